@@ -105,6 +105,13 @@ func genVC(P *Program, C *Contracts, S *Sorts, key string, pure map[*ssa.Functio
 		f.regs[p] = v
 		bind[p.Name()] = v.T
 		f.assumeNonFresh(p.Type(), v.T)
+		// interface values inside a (struct or interface) parameter box addresses of pre-existing objects
+		switch p.Type().Underlying().(type) {
+		case *types.Struct, *types.Interface:
+			if nf := S.nonFresh(p.Type(), v.T, 0, "nf.Any"); nf != "" && nf != "true" {
+				ex.assume(nf)
+			}
+		}
 		// the object a pointer parameter refers to existed before the call, hence refers only to such objects
 		if pt, ok := p.Type().Underlying().(*types.Pointer); ok {
 			if _, isArr := pt.Elem().Underlying().(*types.Array); !isArr {
@@ -370,12 +377,6 @@ func (f *Frame) assumeNonFresh(t types.Type, term string) {
 		sn := f.sortOf(t)
 		for i := 0; i < u.NumFields(); i++ {
 			f.assumeNonFresh(u.Field(i).Type(), "("+f.ex.S.fieldSel(sn, i)+" "+term+")")
-		}
-	case *types.Interface:
-		// the addresses boxed in an interface value that comes from outside the activation
-		if !f.ex.nonneg["nf:"+term] {
-			f.ex.nonneg["nf:"+term] = true
-			f.ex.global(func() { f.ex.assume("(nf.Any " + term + ")") })
 		}
 	}
 }
